@@ -132,13 +132,16 @@ def _validate(scratch: Path, inst: Instance, tracefile: Path, comp_of: dict, ref
 def run_engine(ctx: Ctx) -> dict:
     """Returns {'mc': [...], 'traces': [{instance, n, bad: [{tid, clauses, trace}]}], totals...}; cached per content hash."""
     cache = ROOT / ".cache"
-    key = _key(ctx.tier, ctx.seed)
+    only = os.environ.get("VERIF_INSTANCES", "")      # development aid: restrict the run to the named instances
+    key = _key(ctx.tier, ctx.seed) + ("_" + hashlib.sha256(only.encode()).hexdigest()[:8] if only else "")
     cf = cache / f"cascade_{key}.json"
     if cf.exists() and not os.environ.get("VERIF_NO_CACHE"):
         ctx.log("cascade engine: using cached result", cf.name)
         return json.loads(cf.read_text())
     t0 = time.time()
     insts = quick_instances() if ctx.quick else thorough_instances()
+    if only:
+        insts = [i for i in insts if i.name in only.split(",")]
     n_per = 60 if ctx.quick else 150
     hashseeds = [0, 1] if ctx.quick else [0, 1, 2]
     mc_workers = 2
@@ -154,7 +157,9 @@ def run_engine(ctx: Ctx) -> dict:
         inst, hs, none = args[:3]
         exhaustive = len(args) > 3 and args[3]
         seed0 = ctx.seed * 100000 + hs * 1000
-        out, meta = _record(scratch, inst, seed0, n_per, hs, none, exh_cap=(400 if ctx.quick else 5000) if exhaustive else 0)
+        if inst.few:
+            exhaustive = False
+        out, meta = _record(scratch, inst, seed0, inst.few or n_per, hs, none, exh_cap=(400 if ctx.quick else 5000) if exhaustive else 0)
         traces = json.loads(out.read_text())
         verdicts = _validate(scratch, inst, out, meta["comp_of"], False, 1200)
         if len(verdicts) != len(traces):
@@ -178,7 +183,7 @@ def run_engine(ctx: Ctx) -> dict:
     ctx.log(f"cascade engine: model checking of {len(insts)} instances done in {time.time()-t0:.0f}s")
     t1 = time.time()
     # per (instance, hash seed): seeded random schedules + (for hash seeds 0 and 1) every delivery order
-    jobs = [(i, hs, "", hs in (0, 1)) for i in insts for hs in hashseeds]
+    jobs = [(i, hs, "", hs in (0, 1)) for i in insts for hs in hashseeds if not (i.few and hs != hashseeds[0])]
     # probes for values that are legitimately None (C01/C03 clause "every requested dataset is delivered")
     by_name = {i.name: i for i in insts}
     for nm, none in [("single_1x1_sink", "a"), ("chain2_2x1_all", "a")]:
